@@ -59,7 +59,8 @@ class C11Bounded(Bounded):
                      # (a pattern covers exactly the names it matches as a whole: `*_allow` does not cover `allow`, `a*a` not `a`)
                      ({"allow": {"u": 1}, "x_allow": {"w": 2}}, "not 1 of *_allow"), ({"a": {"u": 1}, "aa": {"w": 2}, "aba": {"x": 3}}, "not all of a*a")]
         logsources = [({"category": "c", "product": "p"}, {"category": "c"}), ({"category": "c", "product": "p"}, {"product": "p"}), ({"category": "c"}, {"category": "c", "product": "p"}),
-                      ({"category": "c", "product": "p", "service": "s"}, {"category": "c", "product": "p", "service": "s"}), ({"category": "c"}, {"category": "d"})]
+                      ({"category": "c", "product": "p", "service": "s"}, {"category": "c", "product": "p", "service": "s"}), ({"category": "c"}, {"category": "d"}),
+                      ({"category": "c", "product": "p"}, {"category": "c", "product": "P"})]          # log source values are compared as written (a different spelling is a different value, for every attribute set)
         targets = ["any", "byname", "byname_scalar", "any_scalar_upper", "byid", "byid_scalar", "byID_upper", "other"]
         ev = nontriv = 0
         seen, fails, samples = {}, [], []
@@ -128,6 +129,16 @@ class C11Bounded(Bounded):
                 col = SigmaCollection([SigmaRule.from_dict(copy.deepcopy(d)) for d in rdocs])
                 col.rules.extend(SigmaFilter.from_dict(copy.deepcopy(d)) for d in fl)
                 q_append = b().convert(col)
+                # the same, but the rules were already looked at (conditions parsed by a validator-like pass) / converted once before the filters arrive
+                col2 = SigmaCollection([SigmaRule.from_dict(copy.deepcopy(d)) for d in rdocs])
+                for r_ in col2.rules:
+                    [c_.parsed for c_ in r_.detection.parsed_condition]
+                col2.rules.extend(SigmaFilter.from_dict(copy.deepcopy(d)) for d in fl)
+                q_append_parsed = b().convert(col2)
+                col3 = SigmaCollection([SigmaRule.from_dict(copy.deepcopy(d)) for d in rdocs])
+                b().convert(col3)
+                col3.rules.extend(SigmaFilter.from_dict(copy.deepcopy(d)) for d in fl)
+                q_append_converted = b().convert(col3)
                 parts = [SigmaCollection.from_dicts([copy.deepcopy(d)], collect_filters=True, resolve_references=False) for d in rdocs[:1] + fl[:2] + rdocs[1:] + fl[2:]]
                 q_merge_list = b().convert(SigmaCollection.merge(parts))
                 parts = [SigmaCollection.from_dicts([copy.deepcopy(d)], collect_filters=True, resolve_references=False) for d in rdocs[:1] + fl[:2] + rdocs[1:] + fl[2:]]
@@ -146,7 +157,7 @@ class C11Bounded(Bounded):
                 continue
             want = ['a=1 and not u="adm" and not v="svc"', 'b=2 and not u="adm"', 'c=3 and not w="sys"']
             norm = lambda qs: [" and ".join(sorted(q.split(" and "))) for q in qs]
-            for route, got in (("from_dicts", q_dicts), ("constructor", q_ctor), ("filters appended to collection.rules", q_append), ("merge of a list of collections", q_merge_list),
+            for route, got in (("from_dicts", q_dicts), ("constructor", q_ctor), ("filters appended to collection.rules", q_append), ("filters appended after the rules' conditions were parsed", q_append_parsed), ("filters appended after a first conversion", q_append_converted), ("merge of a list of collections", q_merge_list),
                                ("merge of a generator of collections", q_merge_gen), ("load_ruleset of one file per document", q_files), ("load_ruleset with an identity on_load hook", q_files_hook)):
                 same = (sorted(norm(got)) == sorted(norm(want))) if route.startswith("load_ruleset") else (norm(got) == norm(want))      # the order of files is the loader's business
                 if not same:
